@@ -42,7 +42,7 @@ CLAIMED = {
     'C13': dict(assumptions=[GAP, 'no stream is lost by the scope functions (unit stream_scopes, see C10); the precondition of meet_scope_end (its two unwraps) rests on control_exec\'s `depth > 0` plus the invariant depth <= number of bound descriptors: lemma scope_len_steps gives its steps, the induction over a run is on paper', 'every caller of Stream::add_value (unit appends) and the fold/next executors with RecursiveStreamCursor (unit fold_exec, lemma cursor_visits_each_value_once) are under contract; the fold body is an opaque child that may append to the open generation only',
                              'ValuesMatrix::slice_iter (iterator chain) is a stub with the spec non_empty(view.skip(cursor)); the bounded native jobs C12.compactify / C13.cursor tie it to the real code']),
     'C14': dict(assumptions=[GAP, 'Ed25519, borsh and CidInfo::verify internals are trusted; the attack catalogue over histories is not covered']),
-    'C15': dict(assumptions=[GAP, 'to_count_map (HashMap entry API) is outside Verus: assumed to return the multiset of its argument, checked by the bounded native job C15.merge, which also covers DataVerifier::merge (swap logic, Entry API) that Verus cannot take']),
+    'C15': dict(assumptions=[GAP, 'to_count_map is proved to return the multiset of its argument; inside it the std idiom `*m.entry(k).or_default() += 1` is replaced (declared rewrite) by a trusted helper with that very body and the assumed contract "the count under k goes up by one, every other key keeps its count"; a str is assumed to be determined by its characters', 'DataVerifier::merge (swap decision `ours.len() < other.len()`, Entry API, by-value HashMap iteration) is outside Verus: covered only by the bounded native job C15.merge, which also re-checks to_count_map and is_multisubset on the real HashMap']),
     'C17': dict(assumptions=[GAP,
         'the tetraplets put into CallRequestParams by ResolvedCall::{collect_args, resolve_args, prepare_request_params} are, position by position, those of the arguments (arg_ok for every ImmutableValue kind: literal and built-ins => (init peer, "", "", ""); scalar => stored tetraplets; scalar/iterator with lens => stored ++ lens text; call results fresh and replayed => the call\'s resolved triplet with an empty lens, replayed ones only after verify_call)',
         'reading for canon streams: "it" is the ELEMENT the producer produced, so `#c.$.[i]` keeps the element tetraplet and `#c.$.[i].path` must append the path after the index (as the canon-map sibling does); upstream pins the first half (ap.rs) and, against the statement, the lens-less second half (fold_stream_map): recorded known finding F16',
